@@ -3,6 +3,7 @@ import Proofs.C09Token
 import Proofs.C09Parse
 import Proofs.C09Routing
 import Proofs.C09Names
+import Proofs.C09Placed
 /-!
 # C09 — partition tokens equal the ones Cassandra computes (property theorems)
 
@@ -429,5 +430,59 @@ example : Routing.ringSortInt [-9223372036854775808, -1, 0, 4611686018427387904,
 /-- test vectors (labelled as tests): the repo's own vector for "hello", and the empty key -/
 example : (Murmur.murmur3H1 [0x68, 0x65, 0x6c, 0x6c, 0x6f]).toInt = -3758069500696749310 := by decide
 example : (Murmur.murmur3H1 []).toInt = 0 := by decide
+
+/-! ## the token is a function of the key's BYTES only (the key as it lies in memory: `Murmur.Placed`)
+
+`Murmur.Placed.murmur3H1` is the model of `Murmur3H1` + `getBlock` on a Go slice = (backing memory, offset = address of
+the first byte, length, capacity): the block loop loads 16 bytes at the ADDRESS of `data[n*16]` (the unsafe
+`*[2]int64` load of murmur_unsafe.go, no bounds check of its own), the tail indexes by address. The theorems hold for
+every backing memory, every offset (alignment 0..15 and beyond), every spare capacity and whatever bytes lie before
+and behind the key. -/
+
+/-- **Murmur3 of a key anywhere in memory = Cassandra's hash of the key's bytes.** -/
+theorem C09_murmur_placed (s : Murmur.Placed.Slice) (h : s.wf) :
+    Murmur.Placed.murmur3H1 s = Murmur.Spec.cassandraH1 s.view := by
+  rw [Murmur.Placed.murmur3H1_eq_view s h, C09_murmur]
+
+/-- **The hash depends on the bytes only**: two slices — different buffers, different offsets / alignments, different
+    capacities, different neighbouring bytes — that denote the same byte string hash to the same token. -/
+theorem C09_hash_depends_on_bytes_only (s t : Murmur.Placed.Slice) (hs : s.wf) (ht : t.wf) (h : s.view = t.view) :
+    Murmur.Placed.murmur3H1 s = Murmur.Placed.murmur3H1 t := by
+  rw [Murmur.Placed.murmur3H1_eq_view s hs, Murmur.Placed.murmur3H1_eq_view t ht, h]
+
+/-- the same said with the buffer spelled out: `key` placed behind ANY prefix (so at any address offset) and before any
+    suffix, with any spare capacity, hashes to Cassandra's token of `key` -/
+theorem C09_murmur_any_offset (pre key post : List UInt8) (spare : Nat) :
+    Murmur.Placed.murmur3H1 (Murmur.Placed.place pre key post spare) = Murmur.Spec.cassandraH1 key := by
+  rw [C09_murmur_placed _ (Murmur.Placed.place_wf pre key post spare), Murmur.Placed.place_view]
+
+/-- `getBlock` is an UNCHECKED 16-byte load; every address it reads for a block `n < len/16` of the loop lies inside
+    the key (never in the bytes before it, the spare capacity or beyond) -/
+theorem C09_getBlock_in_window (s : Murmur.Placed.Slice) (n : Nat) (h : n < s.len / 16) :
+    ∀ a ∈ Murmur.Placed.getBlockReads s n, s.off ≤ a ∧ a < s.off + s.len :=
+  Murmur.Placed.getBlockReads_in_window s n h
+
+/-- and what it loads there are the two little-endian words of block `n` of the key's bytes -/
+theorem C09_getBlock_words (s : Murmur.Placed.Slice) (n : Nat) (h : n*16 + 16 ≤ s.len) :
+    Murmur.Placed.getBlock s n =
+      (Murmur.le64 ((s.view.drop (n*16)).take 8), Murmur.le64 ((s.view.drop (n*16 + 8)).take 8)) := by
+  rw [Murmur.Placed.getBlock_in_view s n h, Murmur.take8_take16, Murmur.drop8_take16, List.drop_drop]
+
+/-- **The token of a statement's routing key** (op `rktok`): blob components lying anywhere in memory; with ONE key
+    column the routing key IS the caller's slice (hashed where it lies), with several a fresh buffer — in both cases the
+    token the policy computes is Cassandra's hash of the CompositeType framing of the components' bytes. -/
+theorem C09_routing_token_placed (cs : List Murmur.Placed.Slice) (h : ∀ c ∈ cs, c.wf) :
+    Murmur.Placed.routingToken cs = Murmur.Spec.cassandraH1 (Token.routingKey (cs.map Murmur.Placed.Slice.view)) := by
+  unfold Murmur.Placed.routingToken
+  rw [C09_murmur_placed _ (Murmur.Placed.routingKey_wf cs h), Murmur.Placed.routingKey_view]
+
+/-- non-vacuity: a 2-byte key at offset 1 of a 4-byte buffer, one byte of spare capacity -/
+example : (Murmur.Placed.place [9] [2, 3] [4] 1).wf ∧ (Murmur.Placed.place [9] [2, 3] [4] 1).view = [2, 3] ∧
+    (Murmur.Placed.place [9] [2, 3] [4] 1).off = 1 :=
+  ⟨Murmur.Placed.place_wf _ _ _ _, Murmur.Placed.place_view _ _ _ _, rfl⟩
+
+/-- test vector (labelled as a test): "hello" at offset 3 between foreign bytes -/
+example : (Murmur.Placed.murmur3H1 (Murmur.Placed.place [0xff, 0xff, 0xff] [0x68, 0x65, 0x6c, 0x6c, 0x6f] [0xff, 0xff] 1)).toInt
+    = -3758069500696749310 := by decide
 
 end C09
